@@ -1210,6 +1210,97 @@ M('C04', 'ecdh-unpad-manual', FL, C04_ECD, """        return _m[:-_m[-1]]
 """, 'C04.7')
 M('C04', 'key-selection-alg-only-when-set', PGP, "                     and pk.pkalg == self.key_algorithm and pk.encrypter == self.fingerprint.keyid)", "                     and pk.pkalg == self.key_algorithm and (not pk.encrypter or pk.encrypter == self.fingerprint.keyid))", 'C04.6')
 M('C04', 'msg-filter-hasattr', PGP, "        for skesk in iter(sk for sk in self._sessionkeys if isinstance(sk, SKESessionKey)):", "        for skesk in iter(sk for sk in self._sessionkeys if hasattr(sk, 'decrypt_sk')):", 'C04.5')
+# ---- follow-up: C04.8 (message composition) and further mutant kinds (connectives, home-grown compare, store before check, widened handler, leniency flags)
+C04_OR_DATA = """        if isinstance(other, (LiteralData, SKEData, IntegrityProtectedSKEData)):
+            if self._message is None:
+                self._message = other
+                return self
+
+"""
+T('C04', 'twin-or-explicit-duplicate-raise', PGP, C04_OR_DATA, """        if isinstance(other, (LiteralData, SKEData, IntegrityProtectedSKEData)):
+            if self._message is not None:
+                raise NotImplementedError("second data packet: " + str(type(other)))
+            self._message = other
+            return self
+
+""")
+T('C04', 'twin-or-combined-condition', PGP, C04_OR_DATA, """        is_data = isinstance(other, LiteralData) or isinstance(other, SKEData) or isinstance(other, IntegrityProtectedSKEData)
+        if is_data and self._message is None:
+            self._message = other
+            return self
+
+""")
+M('C04', 'or-second-data-packet-dropped', PGP, C04_OR_DATA, """        if isinstance(other, (LiteralData, SKEData, IntegrityProtectedSKEData)):
+            if self._message is None:
+                self._message = other
+                return self
+
+            warnings.warn("Discarded unexpected packet: {:s}".format(other.__class__.__name__), stacklevel=2)
+            return self
+
+""", 'C04.8')
+M('C04', 'or-last-data-packet-wins', PGP, C04_OR_DATA, """        if isinstance(other, (LiteralData, SKEData, IntegrityProtectedSKEData)):
+            self._message = other
+            return self
+
+""", 'C04.8')
+M('C04', 'or-literal-after-encrypted-tolerated', PGP, C04_OR_DATA, """        if isinstance(other, (LiteralData, SKEData, IntegrityProtectedSKEData)):
+            if self._message is None:
+                self._message = other
+                return self
+
+            if isinstance(other, LiteralData):
+                return self
+
+""", 'C04.8')
+M('C04', 'or-text-overwrites', PGP, "        if isinstance(other, (str, bytes, bytearray)):\n            if self._message is None:\n                self._message = self.text_to_bytes(other)\n                return self\n", "        if isinstance(other, (str, bytes, bytearray)):\n            self._message = self.text_to_bytes(other)\n            return self\n", 'C04.8')
+
+# ---- further mutant kinds
+M('C04', 'seipd-not-a-or-b', PK, C04_SEIPD, """        pt = _decrypt(bytes(self.ct), bytes(key), alg)
+        bs = alg.block_size // 8
+        mdc_ok = constant_time.bytes_eq(bytes(pt[-22:]), b'\\xd3\\x14' + hashlib.new('SHA1', pt[:-20]).digest())
+        prefix_ok = constant_time.bytes_eq(bytes(pt[bs - 2:bs]), bytes(pt[bs:bs + 2]))
+        if not (mdc_ok or prefix_ok):
+            raise PGPDecryptionError("Decryption failed")
+        return pt[bs + 2:]
+""", 'C04.1')
+M('C04', 'keyblob-usage-or-trailer', FL, "        if self.s2k.usage == 254 and not pt[-20:] == hashlib.new('sha1', pt[:-20]).digest():", "        if not (self.s2k.usage == 254 or pt[-20:] == hashlib.new('sha1', pt[:-20]).digest()):", 'C04.4')
+M('C04', 'seipd-homegrown-compare-assign', PK, "        if not constant_time.bytes_eq(bytes(pt[-22:]), _expected_mdcbytes):\n            raise PGPDecryptionError(\"Decryption failed\")  # pragma: no cover\n",
+  "        diff = 0\n        for x, y in zip(bytes(pt[-22:]), _expected_mdcbytes):\n            diff = x ^ y\n        if diff != 0:\n            raise PGPDecryptionError(\"Decryption failed\")  # pragma: no cover\n", 'C04.1')
+M('C04', 'keyblob-stored-before-check', FL, "        # check the hash to see if we decrypted successfully or not\n        if self.s2k.usage == 254", "        self._cleartext = bytearray(pt)\n\n        # check the hash to see if we decrypted successfully or not\n        if self.s2k.usage == 254", 'C04.4')
+M('C04', 'keyblob-usage-cleared-early', FL, "        # check the hash to see if we decrypted successfully or not\n        if self.s2k.usage == 254", "        usage, self.s2k.usage = self.s2k.usage, 0\n\n        # check the hash to see if we decrypted successfully or not\n        if self.s2k.usage == 254", 'C04.4')
+M('C04', 'seipd-stored-before-check', PK, "        pt = _decrypt(bytes(self.ct), bytes(key), alg)\n\n        # do the MDC checks", "        pt = _decrypt(bytes(self.ct), bytes(key), alg)\n        self._plaintext = pt[:]\n\n        # do the MDC checks", 'C04.1')
+M('C04', 'key-outer-handler-swallows', PGP, "        decmsg = PGPMessage()\n        decmsg.parse(message.message.decrypt(key, alg))\n\n        return decmsg\n\n    def parse(self, data):", "        decmsg = PGPMessage()\n        try:\n            decmsg.parse(message.message.decrypt(key, alg))\n        except PGPError as exc:\n            warnings.warn(str(exc))\n\n        return decmsg\n\n    def parse(self, data):", 'C04.6')
+M('C04', 'msg-handler-widened-around-loop', PGP, C04_MSG_LOOP, """        decmsg = PGPMessage()
+        try:
+            for skesk in iter(sk for sk in self._sessionkeys if isinstance(sk, SKESessionKey)):
+                symalg, key = skesk.decrypt_sk(passphrase)
+                decmsg.parse(self.message.decrypt(key, symalg))
+                break
+
+            else:
+                raise PGPDecryptionError("Decryption failed")
+
+        except (TypeError, ValueError, NotImplementedError):
+            raise PGPDecryptionError("Decryption failed")
+
+        except PGPError:
+            pass
+
+        return decmsg
+""", 'C04.5')
+M('C04', 'seipd-lenient-default-true', PK, "    def decrypt(self, key, alg):\n        # iv, ivl2, pt = super(IntegrityProtectedSKEDataV1, self).decrypt(key, alg)", "    def decrypt(self, key, alg, lenient=True):\n        # iv, ivl2, pt = super(IntegrityProtectedSKEDataV1, self).decrypt(key, alg)", 'C04.1',
+  more=[(PK, "        if not constant_time.bytes_eq(bytes(pt[-22:]), _expected_mdcbytes):\n            raise", "        if not constant_time.bytes_eq(bytes(pt[-22:]), _expected_mdcbytes) and not lenient:\n            raise")])
+M('C04', 'seipd-strict-constant-false', PK, "        if not constant_time.bytes_eq(bytes(pt[-22:]), _expected_mdcbytes):\n            raise", "        if self._STRICT_MDC and not constant_time.bytes_eq(bytes(pt[-22:]), _expected_mdcbytes):\n            raise", 'C04.1',
+  more=[(PK, "    def decrypt(self, key, alg):\n        # iv, ivl2, pt = super(IntegrityProtectedSKEDataV1, self).decrypt(key, alg)", "    _STRICT_MDC = False\n\n    def decrypt(self, key, alg):\n        # iv, ivl2, pt = super(IntegrityProtectedSKEDataV1, self).decrypt(key, alg)")])
+M('C04', 'keyblob-verify-default-false', FL, "    def decrypt_keyblob(self, passphrase):\n        if not self.s2k:  # pragma: no cover", "    def decrypt_keyblob(self, passphrase, verify=False):\n        if not self.s2k:  # pragma: no cover", 'C04.4',
+  more=[(FL, "        if self.s2k.usage == 254 and not pt[-20:] == hashlib.new('sha1', pt[:-20]).digest():", "        if verify and self.s2k.usage == 254 and not pt[-20:] == hashlib.new('sha1', pt[:-20]).digest():")])
+M('C04', 'ecdh-strict-flag', FL, C04_ECD, """        padder = PKCS7(64).unpadder()
+        data = padder.update(_m)
+        if getattr(pk, 'strict_padding', False):
+            data += padder.finalize()
+        return data
+""", 'C04.7')
 
 # =============================================================================================== C03
 M('C03', 'checksum-65535', PK, "        m += self.int_to_bytes(sum(bytearray(symkey)) % 65536, 2)", "        m += self.int_to_bytes(sum(bytearray(symkey)) % 65535, 2)", 'C03.1')
